@@ -186,9 +186,17 @@ func VxC02MaxLTX() {
 func VxC02Snapshot() {
 	w := vxSnapshotWorld()
 	defer w.db.f.Close()
+	// the newest level-0 file may be unreadable for a moment (a corrupt file, a race
+	// with a reset): the attempt fails, and must leave nothing locked behind
+	if vx.Fault("newestL0Unreadable") {
+		vx.FSWriteFile(w.db.LTXPath(0, w.pos, w.pos), []byte("not an ltx file"))
+		w.db.syncState = syncState{}
+	}
 	pos, rc, err := w.db.SnapshotReader(context.Background())
 	if err != nil {
-		// refusing is always allowed: nothing is published
+		// refusing is always allowed: nothing is published - but a refused attempt
+		// must not keep the checkpoint lock (checkpoints would be skipped for good)
+		vx.Assert("failed-snapshot-attempt-leaves-checkpoint-lock-free", w.db.chkMu.TryLock())
 		return
 	}
 	data, rerr := io.ReadAll(rc)
